@@ -342,7 +342,17 @@ def r6_attack_map(ctx):
     ctx.floor('C06.R6-attack-map', 'attack-map obligations imported', n, 4)
 
 
+def r7_move_list(ctx):
+    """mate and stalemate are read off the emptiness of the legal-move list: it must be the pseudo-legal moves minus exactly those that
+    leave the king attacked (= C01.R1 / R2; a pre-filter that drops a real evasion turns a check into a mate)"""
+    from . import c01
+    import_rules(ctx, 'C06.R7-legal-move-list', [c01.r1_filter_dominance, c01.r2_filter_shape],
+                 'a legality filter that discards (or keeps) a move without simulating it makes "no legal move" - and with it checkmate, '
+                 'stalemate and the # annotation - wrong in the positions where that move is the only evasion', floor=6)
+
+
 def run(ctx):
+    r7_move_list(ctx)
     r5_attack_cache(ctx)
     r6_attack_map(ctx)
     r1_in_check(ctx)
